@@ -26,6 +26,7 @@ import (
 	"crypto/elliptic"
 	"errors"
 	"fmt"
+	"math/big"
 
 	"github.com/btcsuite/btcd/btcec"
 	"github.com/kardiachain/go-kardia/lib/common"
@@ -44,6 +45,14 @@ func Ecrecover(hash, sig []byte) ([]byte, error) {
 
 // SigToPub returns the public key that created the given signature.
 func SigToPub(hash, sig []byte) (*ecdsa.PublicKey, error) {
+	if len(sig) != SignatureLength {
+		return nil, errors.New("invalid signature length")
+	}
+	// r and s must be in [1, N-1]; btcec dereferences a nil modular inverse otherwise.
+	r, s := new(big.Int).SetBytes(sig[:32]), new(big.Int).SetBytes(sig[32:64])
+	if r.Sign() == 0 || s.Sign() == 0 || r.Cmp(secp256k1N) >= 0 || s.Cmp(secp256k1N) >= 0 {
+		return nil, errors.New("invalid signature values")
+	}
 	// Convert to btcec input format with 'recovery id' v at the beginning.
 	btcsig := make([]byte, 65)
 	btcsig[0] = sig[64] + 27
